@@ -70,6 +70,7 @@ const KINDS: &[&str] = &[
 	"foreign_block",
 	"reorg",
 	"reorg_lower",
+	"header_ahead",
 ];
 
 #[derive(Clone, Copy, PartialEq, Debug)]
@@ -2214,6 +2215,61 @@ impl<'a> Harness<'a> {
 		self.deliver_foreign("foreign_block", head, &cands, d, fresh.len());
 	}
 
+	/// Header-first propagation / header sync: the headers of one or two honest empty blocks on the head are announced
+	/// without their bodies, so the header chain runs ahead of the body chain. What the pool admits and offers for
+	/// mining is decided by the BODY chain: right afterwards something is submitted that only becomes mineable at the
+	/// height the header chain has already reached.
+	fn op_header_ahead(&mut self) {
+		let head = self.head_hash();
+		let n = 1 + self.prng.usize_below(2);
+		self.begin_op("header_ahead", format!("{} header(s) on {} without bodies", n, head));
+		let pre_size = self.pool.read().txpool.size();
+		let mut parent = head;
+		let mut announced = 0;
+		for _ in 0..n {
+			let k = self.w.key(self.next_key);
+			self.next_key += 1;
+			let d = 1000 + self.prng.below(500);
+			let b = match self.ledger.make_block(&self.w, &mut self.prng, &parent, &[], &k, PowMode::Skip { difficulty: d }, 60) {
+				Ok(b) => b,
+				Err(_) => break,
+			};
+			match self.chain.process_block_header(&b.header, Options::SKIP_POW | self.base_opts) {
+				Ok(()) => announced += 1,
+				Err(_) => break,
+			}
+			parent = b.hash();
+		}
+		self.run.count("headers_announced_without_bodies", announced);
+		self.end_op("header_ahead", false, pre_size, &format!("announced{}", announced));
+		if self.stop || announced == 0 {
+			return;
+		}
+		// lock height / maturity just beyond the body chain's next height
+		let v = self.view();
+		let free = self.free_coins(&v);
+		if let Some(c) = free.first().cloned() {
+			let lock = v.next_h + 1 + self.prng.below(announced);
+			let (fee, shift) = self.good_fee(1, 1, c.value);
+			let src = self.rand_src();
+			if let Some((tx, _)) = self.mk_tx(&[c], 1, fee, shift, Some(lock), 0) {
+				self.run.count("locked_beyond_the_body_chain_while_the_header_chain_is_ahead", 1);
+				self.submit(Submission {
+					kind: "immature",
+					eff: tx.clone(),
+					tx,
+					label: Label::Unmineable,
+					stem: false,
+					src,
+					desc: format!("height-locked at {} with the body chain's next block at {} and the header chain {} ahead", lock, v.next_h, announced),
+				});
+				if !self.stop {
+					self.want_real_mine();
+				}
+			}
+		}
+	}
+
 	fn op_reorg(&mut self, lower: bool) {
 		let kind: &'static str = if lower { "reorg_lower" } else { "reorg" };
 		if lower && self.prng.chance(2, 3) {
@@ -2350,35 +2406,35 @@ impl<'a> Harness<'a> {
 				("valid", 26), ("dependent", 14), ("chain3", 6), ("conflict", 4), ("duplicate", 3),
 				("agg_pooled_new", 3), ("agg_two_pooled", 2), ("agg_two_new", 3), ("agg_low_remainder", 2),
 				("low_fee", 9), ("overweight", 2), ("invalid", 5), ("immature", 3), ("stem_resubmit", 1),
-				("fluff", 2), ("expire", 1), ("mine", 5), ("foreign_block", 4), ("reorg", 3), ("reorg_lower", 1),
+				("fluff", 2), ("expire", 1), ("mine", 5), ("foreign_block", 4), ("reorg", 3), ("reorg_lower", 1), ("header_ahead", 2),
 				("fill", 4),
 			],
 			2 => &[
 				("valid", 14), ("dependent", 24), ("chain3", 14), ("conflict", 4), ("duplicate", 3),
 				("agg_pooled_new", 4), ("agg_two_pooled", 3), ("agg_two_new", 3), ("agg_low_remainder", 2),
 				("low_fee", 6), ("overweight", 1), ("invalid", 4), ("immature", 3), ("stem_resubmit", 1),
-				("fluff", 2), ("expire", 1), ("mine", 6), ("foreign_block", 4), ("reorg", 3), ("reorg_lower", 1),
+				("fluff", 2), ("expire", 1), ("mine", 6), ("foreign_block", 4), ("reorg", 3), ("reorg_lower", 1), ("header_ahead", 2),
 				("fill", 3),
 			],
 			3 => &[
 				("valid", 20), ("dependent", 10), ("chain3", 5), ("conflict", 4), ("duplicate", 3),
 				("agg_pooled_new", 3), ("agg_two_pooled", 2), ("agg_two_new", 2), ("agg_low_remainder", 1),
 				("low_fee", 4), ("overweight", 1), ("invalid", 3), ("immature", 5), ("stem_resubmit", 1),
-				("fluff", 2), ("expire", 1), ("mine", 10), ("foreign_block", 8), ("reorg", 10), ("reorg_lower", 4),
+				("fluff", 2), ("expire", 1), ("mine", 10), ("foreign_block", 8), ("reorg", 10), ("reorg_lower", 4), ("header_ahead", 2),
 				("fill", 1),
 			],
 			4 => &[
 				("valid", 22), ("dependent", 14), ("chain3", 5), ("conflict", 5), ("duplicate", 5),
 				("agg_pooled_new", 3), ("agg_two_pooled", 2), ("agg_two_new", 3), ("agg_low_remainder", 1),
 				("low_fee", 5), ("overweight", 1), ("invalid", 4), ("immature", 3), ("stem_resubmit", 5),
-				("fluff", 7), ("expire", 4), ("mine", 6), ("foreign_block", 5), ("reorg", 3), ("reorg_lower", 1),
+				("fluff", 7), ("expire", 4), ("mine", 6), ("foreign_block", 5), ("reorg", 3), ("reorg_lower", 1), ("header_ahead", 2),
 				("fill", 2),
 			],
 			_ => &[
 				("valid", 22), ("dependent", 12), ("chain3", 5), ("conflict", 5), ("duplicate", 4),
 				("agg_pooled_new", 4), ("agg_two_pooled", 3), ("agg_two_new", 3), ("agg_low_remainder", 2),
 				("low_fee", 6), ("overweight", 2), ("invalid", 5), ("immature", 4), ("stem_resubmit", 2),
-				("fluff", 3), ("expire", 2), ("mine", 8), ("foreign_block", 6), ("reorg", 4), ("reorg_lower", 1),
+				("fluff", 3), ("expire", 2), ("mine", 8), ("foreign_block", 6), ("reorg", 4), ("reorg_lower", 1), ("header_ahead", 2),
 				("fill", 2),
 			],
 		};
@@ -2464,6 +2520,7 @@ impl<'a> Harness<'a> {
 				"foreign_block" => self.op_foreign_block(),
 				"reorg" => self.op_reorg(false),
 				"reorg_lower" => self.op_reorg(true),
+				"header_ahead" => self.op_header_ahead(),
 				"fill" => {
 					let size = self.pool.read().txpool.size();
 					self.fill_remaining = (self.cfg.max_pool_size + 3).saturating_sub(size).min(16);
@@ -2605,7 +2662,7 @@ fn main() {
 	run.require("i3_evaluations_nonempty_stempool", c("i3_evaluations_nonempty_stempool"), 100 * scale);
 	for k in KINDS {
 		let min = match *k {
-			"reorg_lower" | "overweight" | "agg_low_remainder" | "stem_resubmit" | "expire" | "fluff" => 3 * scale,
+			"reorg_lower" | "overweight" | "agg_low_remainder" | "stem_resubmit" | "expire" | "fluff" | "header_ahead" => 3 * scale,
 			_ => 8 * scale,
 		};
 		run.require(&format!("op.{}", k), c(&format!("op.{}", k)), min);
